@@ -88,6 +88,40 @@ def mode_tables(ctx, f):
     return tables
 
 
+def child_loop_variable(f):
+    """text of the loop variable of `for child in [&mut <split>.left, &mut <split>.right]` (as the evaluator prints the place
+    `(*child)`), or None"""
+    for c in f.calls():
+        if not c.callee.endswith('Iterator::next'):
+            continue
+        for x in walk(c.arg_term(0)):
+            if x[0] != 'array' or len(x[1]) != 2:
+                continue
+            ends = []
+            for e in x[1]:
+                e0 = strip(e)
+                while e0[0] in ('ref', 'deref'):
+                    e0 = strip(e0[1])
+                ends.append(e0[2] if e0[0] == 'field' else None)
+            bases = []
+            for e in x[1]:
+                e0 = strip(e)
+                while e0[0] in ('ref', 'deref'):
+                    e0 = strip(e0[1])
+                bases.append(show(e0[1]) if e0[0] == 'field' else None)
+            if sorted(map(str, ends)) != ['left', 'right'] or bases[0] != bases[1]:
+                continue
+            d = c.dest['l']
+            for blk in f.blocks:
+                for st in blk['stmts']:
+                    rv = st['rv']
+                    if rv['k'] == 'use' and rv['o'].get('k') in ('copy', 'move') and rv['o']['place']['l'] == d and \
+                            [q.get('n') for q in rv['o']['place']['p']] == ['Some', '0'] and not st['place']['p']:
+                        t = show(f.place_term({'l': st['place']['l'], 'p': [{'k': 'deref'}]}))
+                        return t.replace('*', '').replace('(', '').replace(')', '')
+    return None
+
+
 def r_tables(ctx):
     F = ctx.F
     rule = 'U2'
@@ -162,6 +196,12 @@ def r_tables(ctx):
     want_child = {('Item', None): 'Item', ('Tree', None): 'Tree', ('Metadata', None): 'Metadata'}
     lt = table('.left', False)
     rt = table('.right', False)
+    if not lt and not rt:
+        # both links converted by one loop `for child in [&mut split.left, &mut split.right] { child.mode = .. }`: the body is
+        # evaluated once for the loop variable; the array must name the left and the right link, each once
+        lv = child_loop_variable(f)
+        if lv is not None:
+            lt = rt = table(lv, False)
     ctx.check(lt == want_child, rule, 'left-child-table', f.loc(), 'left: %s' % lt, 'left child kinds are re-tagged by %s (from the left child\'s own old kind); expected %s' % (lt, want_child))
     ctx.check(rt == want_child, rule, 'right-child-table', f.loc(), 'right: %s' % rt, 'right child kinds are re-tagged by %s (from the right child\'s own old kind); expected %s' % (rt, want_child))
     return f
@@ -251,7 +291,11 @@ def r_writes(ctx, f):
             # executed on every iteration of the loop over the decoded bitmap, with key.node.item = the element
             nxt = [x for x in f.calls() if x.callee.endswith('Iterator::next') and any(s[0] == 'call' and 'RoaringBitmap' in (f.call_at(s[3]).resolved if f.call_at(s[3]) else '') for s in walk(x.arg_term(0)))]
             nxt = [x for x in f.calls() if x.callee.endswith('Iterator::next') and c.bb in f.reachable(x.target) and x.bb in f.reachable(c.target) and x.bb != c.bb]
-            inner = [x for x in nxt if any(s[0] == 'call' and s[1].endswith('::decode') for s in walk(x.arg_term(0)))]
+            def recv_ty(x):
+                a0 = x.args[0] if x.args else None
+                return f.local_ty(a0['place']['l']) if a0 and a0.get('k') in ('copy', 'move') else ''
+            # the loop over the decoded bitmap (by the type of the iterator: not any loop over parts of a decoded node)
+            inner = [x for x in nxt if any(s[0] == 'call' and s[1].endswith('::decode') for s in walk(x.arg_term(0))) and 'roaring' in recv_ty(x).lower()]
             okl = bool(inner) and all(loop_every_iteration(f, x, c.bb) for x in inner)
             ctx.check(okl, rule, 'updated-one-per-element', c.loc(), 'one Updated key is put for every element of the old pending set',
                       'the loop over the old pending-updates set does not put one key per element')
